@@ -243,6 +243,9 @@ pub fn spawn_fault_driver_ex(handle: &Handle, net: &SimNet, faults: &[Value], on
                 "reset" => {
                     net.reset_live(f["k"].as_u64().unwrap_or(0) as usize);
                 }
+                "reset_pair" => {
+                    net.reset_between(node_ip(f["a"].as_u64().unwrap_or(1) as usize), node_ip(f["b"].as_u64().unwrap_or(2) as usize), f["k"].as_u64().unwrap_or(0) as usize);
+                }
                 "half_close" => {
                     net.half_close_live(f["k"].as_u64().unwrap_or(0) as usize, f["dir"].as_u64().unwrap_or(0) as usize);
                 }
